@@ -382,11 +382,9 @@ Definition known_D22 (c : scase) : bool :=
   existsb (fun x : probe => let '(_, m, _, _) := x in is_special_mode m) (s_plan c)
   || match s_entry c with Some _ => true | None => false end
   || match s_exit c with Some _ => true | None => false end.
-(* D06 (index-space defect of C06 / C07): an import added after parsing and deleted again stays in the vector, so
-   ids are mapped to vector positions that are not the indices of the encoded module *)
-Definition known_D06s (c : scase) : bool :=
-  let s := spec_fin c in
-  existsb (fun x : sp => existsb (fun e => se_added e && se_imp e && se_dead e) (q_get s x)) [SF; SG; SM].
+(* D06 (index-space defect of C06 / C07: an import added after parsing and deleted again stayed in the vector, so
+   ids were mapped to vector positions that are not the indices of the encoded module) is repaired: recalculate_ids
+   drops every deleted item; the class is gone. *)
 (* 205: the after / alternate list of the function's final `end` is never emitted and never re-mapped, but it is
    reported: a record whose body still has the ids of the API *)
 Definition known_205 (c : scase) : bool :=
@@ -404,12 +402,12 @@ Definition failing_classes (c : scase) : list N :=
       explain (negb (forallb (kind_ok s fx) addition_kinds)) c []
       ++ explain (negb (forallb (fun kv => existsb (N.eqb (fst kv)) (K_PROBE :: addition_kinds)) fx)) c []
       ++ explain (negb (probes_sound c e emitted (recs_of fx K_PROBE) && probes_once (recs_of fx K_PROBE) && probes_complete c (recs_of fx K_PROBE)))
-                 c [(22, known_D22); (6, known_D06s); (205, known_205)]
+                 c [(22, known_D22); (205, known_205)]
   | _, _ => []
   end.
 Definition verdict23 (c : scase) : Util.verdict :=
   (agree c, in_domain c, holds c,
-   if holds c then (if known_D22 c then [22] else []) ++ (if known_D06s c then [6] else []) ++ (if known_205 c then [205] else [])
+   if holds c then (if known_D22 c then [22] else []) ++ (if known_205 c then [205] else [])
    else dedupN (failing_classes c)).
 Definition report_C23 := run_report verdict23.
 
